@@ -131,6 +131,8 @@ class Engine:
             return z3.And(z3.Not(v.isnone), self.truth(v.val))
         if isinstance(v, SList):
             return v.n > 0
+        if isinstance(v, LRef):
+            return self._cur_zh["L_n"][v.id] > 0
         if isinstance(v, RefsDict):
             return self._cur_zh["refs_nonempty"][v.owner.t]
         if isinstance(v, Obj):
